@@ -21,7 +21,7 @@ func qo(w *world) *queueObj { return w.obj.(*queueObj) }
 
 func init() {
 	register("queue", &component{
-		classes: []string{"unlimited/empty", "unlimited/nonempty", "unlimited/closed", "limit/empty", "limit/full", "limit/closed"},
+		classes: []string{"unlimited/empty", "unlimited/nonempty", "unlimited/iter-at-back", "unlimited/closed", "limit/empty", "limit/full", "limit/closed"},
 		build: func(w *world, class string) {
 			cfg, st, _ := strings.Cut(class, "/")
 			o := &queueObj{}
@@ -35,7 +35,7 @@ func init() {
 				o.q = q
 			}
 			switch st {
-			case "nonempty":
+			case "nonempty", "iter-at-back":
 				for i := 0; i < 3; i++ {
 					_ = o.q.Add(i)
 				}
@@ -52,6 +52,12 @@ func init() {
 			o.iter = o.q.Iterator()
 			o.dist = o.q.Distributor()
 			o.diter = o.dist.Iterator()
+			if st == "iter-at-back" { // the non-destructive producer and iterator rest on the newest entry
+				for i := 0; i < 3; i++ {
+					_, _ = o.prod(w.ctx)
+					_, _ = o.iter.ReadOne(w.ctx)
+				}
+			}
 			w.obj = o
 		},
 		methods: map[string]method{
@@ -122,7 +128,7 @@ func init() {
 		ms["Deque."+k+"()"] = func(w *world, c *call) { _, _ = do(w).prod[k](c.ctx) }
 	}
 	register("deque", &component{
-		classes: []string{"cap/empty", "cap/nonempty", "cap/full", "cap/closed", "unlimited/empty", "unlimited/nonempty", "quota/nonempty"},
+		classes: []string{"cap/empty", "cap/nonempty", "cap/full", "cap/closed", "unlimited/empty", "unlimited/nonempty", "unlimited/iter-at-back", "quota/nonempty"},
 		build: func(w *world, class string) {
 			cfg, st, _ := strings.Cut(class, "/")
 			var opts pubsub.DequeOptions
@@ -139,7 +145,7 @@ func init() {
 				fail(err.Error())
 			}
 			switch st {
-			case "nonempty":
+			case "nonempty", "iter-at-back":
 				_ = dq.PushBack(1)
 				_ = dq.PushBack(2)
 			case "full":
@@ -158,6 +164,15 @@ func init() {
 			o.riter = dq.IteratorReverse()
 			o.dist = dq.Distributor()
 			o.distnb = dq.DistributorNonBlocking()
+			if st == "iter-at-back" { // every producer / iterator rests on the last element of its direction
+				for i := 0; i < 2; i++ {
+					for _, p := range o.prod {
+						_, _ = p(w.ctx)
+					}
+					_, _ = o.iter.ReadOne(w.ctx)
+					_, _ = o.riter.ReadOne(w.ctx)
+				}
+			}
 			w.obj = o
 		},
 		methods: ms,
